@@ -1,6 +1,6 @@
 # C10 — see MANIFEST text below; families are combined from per-family modules
 from famcombine import combine
-combine('C10', ['fam_thetacodec', 'fam_kllcodec', 'fam_cmcodec', 'fam_tdigestcodec', 'fam_varoptcodec', 'fam_cqcodec', 'fam_thetawrap', 'fam_bloomcodec', 'fam_tuplecodec', 'fam_ebppscodec', 'fam_hllcodec', 'fam_ficodec', 'fam_reqcodec', 'fam_serde', 'fam_wireconsts'], globals())
+combine('C10', ['fam_thetacodec', 'fam_kllcodec', 'fam_cmcodec', 'fam_tdigestcodec', 'fam_varoptcodec', 'fam_cqcodec', 'fam_thetawrap', 'fam_bloomcodec', 'fam_tuplecodec', 'fam_ebppscodec', 'fam_hllcodec', 'fam_ficodec', 'fam_reqcodec', 'fam_cpccodec', 'fam_serde', 'fam_wireconsts'], globals())
 MANIFEST = dict(
     level_text=('The Coq layouts are written from the documented byte layouts; byte-for-byte equality of the implementation images with the model encoder, decoding of the reference images '
                 'shipped under */test/*.sk and of a baseline corpus written by the pinned commit, and the hash models (MurmurHash3, XXHash64) checked against published vectors.'),
